@@ -220,6 +220,7 @@ def slices(prop, tier, seed):
     elif prop == "C15":
         S.append(("S-cw", W.s_cw(seed, k_max=3, full=th)))
         S.append(("S-cw-hetero", W.s_cw_hetero(seed, k_max=3, full=th)))
+        S.append(("S-cw-slo", W.s_cw_slo(seed, k_max=3 if th else 2, full=th)))
         if th:
             S.append(("S-cw4", (w for w in W.s_cw(seed, k_max=4, full=False)
                                 if " k=4 " in w["tag"] and "load=preload" in w["tag"])))
@@ -241,6 +242,7 @@ def slices(prop, tier, seed):
             k_max=3 if th else 2)))
         S.append(("S-cw", W.s_cw(seed, k_max=3 if th else 2, full=th)))
         S.append(("S-cw-hetero", W.s_cw_hetero(seed, k_max=3, full=th)))
+        S.append(("S-cw-slo", W.s_cw_slo(seed, k_max=3, full=th)))
     elif prop == "C19":
         S.append(("S-closed", W.s_closed(g, seed)))
         # deadline bounds from the command line must reach every instance, also the ones
